@@ -194,9 +194,29 @@ func snapshot() []gor {
 		if len(f) == 3 {
 			st = strings.Trim(f[2], "[]:")
 		}
+		// A goroutine whose allocation starts a garbage-collection cycle parks on a runtime-internal
+		// semaphore (gcStart waits for worldsema, which this very stack dump holds while the world is
+		// stopped): it shows as "semacquire" with no sync frame on top and continues on its own as
+		// soon as the dump is over.  Only semaphores of package sync (WaitGroup.Wait) are waits on
+		// other goroutines.  (Seen once in ~50 000 runs under load: ExecuteOne judged parked one
+		// step too early, return step observed one step late.)
+		if strings.HasPrefix(st, "semacquire") && !strings.Contains(s, "sync.runtime_Semacquire") {
+			st = "runtime-" + st
+		}
 		out = append(out, gor{id: f[1], status: st, group: isGroup})
 	}
 	return out
+}
+
+func gorsKey(gs []gor) string {
+	var b strings.Builder
+	for _, g := range gs {
+		b.WriteString(g.id)
+		b.WriteByte(':')
+		b.WriteString(g.status)
+		b.WriteByte(';')
+	}
+	return b.String()
 }
 
 // busy: anything but a goroutine parked on a channel, select or sync primitive.  A white-list,
@@ -211,9 +231,12 @@ func busy(g gor) bool {
 	return true
 }
 
-// quiesce waits until no relevant goroutine can run and returns that snapshot.
+// quiesce waits until no relevant goroutine can run and returns that snapshot: two consecutive
+// stop-the-world dumps, with a yield in between, in which every relevant goroutine is parked on a
+// channel / select / sync primitive and which show the same goroutines in the same states.
 func quiesce() ([]gor, bool) {
 	deadline := time.Now().Add(5 * time.Second)
+	prev := ""
 	for k := 0; ; k++ {
 		gs := snapshot()
 		ok := true
@@ -224,7 +247,13 @@ func quiesce() ([]gor, bool) {
 			}
 		}
 		if ok {
-			return gs, true
+			key := "q" + gorsKey(gs)
+			if key == prev {
+				return gs, true
+			}
+			prev = key
+		} else {
+			prev = ""
 		}
 		if time.Now().After(deadline) {
 			return gs, false
